@@ -65,6 +65,21 @@ def _process_step_expression(
             return (target_assets, step_expression['name'])
 
         case 'union' | 'intersection' | 'difference':
+            if len(target_assets) > 1:
+                # MAL evaluates a step expression per asset: after a
+                # navigation that yielded several assets the set operator is
+                # applied to each of them separately and the results are
+                # collected, it is not applied to the pooled operands.
+                new_target_assets = []
+                for target_asset in target_assets:
+                    (asset_targets, _) = _process_step_expression(
+                        lang_graph, model, [target_asset], step_expression)
+                    for asset in asset_targets:
+                        if next((known for known in new_target_assets \
+                            if known.id == asset.id), None) is None:
+                            new_target_assets.append(asset)
+                return (new_target_assets, None)
+
             # The set operators are used to combine the left hand and right
             # hand targets accordingly.
             lh_targets, lh_attack_steps = _process_step_expression(
